@@ -340,11 +340,11 @@ def dt_part(spec, part):
 def plan(tier, seed):
     specs = [{"mode": "enc", "seed": f"{seed}:C19:enc", "sstride": 10 if tier == "quick" else 1},
              {"mode": "dt", "seed": f"{seed}:C19:dt"}]
-    n = 25 if tier == "quick" else 400
+    n = 25 if tier == "quick" else 1000
     for fam, variants in (("ET", ["v2", "v1", "745", "nopeak"]), ("ES", ["v1", "v2", "v1arm"])):
         for v in variants:
             for port in ((8899, 502) if fam == "ET" else (8899,)):
-                for k in range(1 if tier == "quick" else 2):
+                for k in range(1 if tier == "quick" else 4):
                     specs.append({"mode": "e2e", "family": fam, "variant": v, "port": port, "n": n,
                                   "seed": f"{seed}:C19:{fam}:{v}:{port}:{k}"})
     return specs
